@@ -226,8 +226,11 @@ def main():
             st = os.path.join(dd, "strace.txt")
             e = dict(run_env)
             RangeHandler.log.clear()
+            markf = os.path.join(dd, "fi.mark")
             if fault:
-                e.update({"LD_PRELOAD": a.fi, "BITA_FI_PATH": out, "BITA_FI_K": str(fault["k"]), "BITA_FI_MODE": fault["mode"], "BITA_FI_TEAR": str(fault["tear"])})
+                if os.path.exists(markf):
+                    os.unlink(markf)
+                e.update({"LD_PRELOAD": a.fi, "BITA_FI_PATH": out, "BITA_FI_K": str(fault["k"]), "BITA_FI_MODE": fault["mode"], "BITA_FI_TEAR": str(fault["tear"]), "BITA_FI_MARK": markf})
                 cmd = args
             else:
                 cmd = ["strace", "-f", "-y", "-qq", "-s", "0", "-o", st, "-e", "trace=openat,open,lseek,read,write,pread64,pwrite64,ftruncate"] + args
@@ -237,6 +240,14 @@ def main():
                 msg = (p.stderr.decode(errors="replace").strip().splitlines() or [""])[-1][:160]
             except subprocess.TimeoutExpired:
                 code, msg = 124, "timeout"
+            if fault:
+                if "cannot be preloaded" in msg or not os.path.exists(a.fi):
+                    print("fault interposer could not be loaded: " + msg, file=sys.stderr)
+                    sys.exit(2)
+                fired = os.path.exists(markf)
+                if fired:
+                    os.unlink(markf)
+                return code, msg, fired, []
             calls = parse_strace(st) if (not fault and os.path.exists(st)) else []
             if not fault and not calls:
                 print("strace produced no output: " + msg, file=sys.stderr)
@@ -305,8 +316,10 @@ def main():
                     os.unlink(out)
                 if prior and kind != "new":
                     open(out, "wb").write(prior)
-                code, msg, _c, _h = run_once(fault=fc)
+                code, msg, fired, _h = run_once(fault=fc)
                 nrun += 1
+                if not fired:
+                    continue        # the k-th write never happened in this run (schedule differs): not a crash case
                 mid = open(out, "rb").read() if os.path.exists(out) else b""
                 # restart: re-run with the output as seed (no faults), observed by strace
                 saved = list(args)
